@@ -642,6 +642,19 @@ impl TypeParser {
         }
     }
 
+    /// Return a size of a type in bytes if this is a type of an unsigned number
+    /// (a discriminant of such type must be read as unsigned).
+    fn unsigned_size(&self, type_id: TypeId) -> Option<u64> {
+        match self.processed_types.get(&type_id)? {
+            TypeDeclaration::Scalar(ScalarType {
+                encoding: Some(gimli::DW_ATE_unsigned | gimli::DW_ATE_unsigned_char),
+                byte_size,
+                ..
+            }) => Some(byte_size.unwrap_or(mem::size_of::<u64>() as u64)),
+            _ => None,
+        }
+    }
+
     fn parse_base_type(&mut self, die_ref: FatDieRef<'_>) -> TypeDeclaration {
         let die = die_ref.deref_ensure();
         let name = die.name();
@@ -834,6 +847,10 @@ impl TypeParser {
                 .or_else(|| variant.type_ref().and_then(&mut member_from_ref))
         });
 
+        let discr_unsigned = discr_type
+            .as_ref()
+            .and_then(|member| self.unsigned_size(member.type_ref?));
+
         let variants = variant_part
             .map(|vp| {
                 let variant_offsets = vp.for_each_children_filter_collect(|child| {
@@ -867,7 +884,7 @@ impl TypeParser {
                     }
                 });
 
-                Some((variant.discr_value(), member?))
+                Some((variant.discr_value(discr_unsigned), member?))
             })
             .collect::<HashMap<_, _>>();
 
@@ -889,10 +906,12 @@ impl TypeParser {
             self.parse_inner(die_ref, reference);
         }
 
+        let discr_unsigned = mb_discr_type.and_then(|type_id| self.unsigned_size(type_id));
+
         let enumerators = die
             .for_each_children_filter_collect(|child| {
                 if child.tag() == gimli::DW_TAG_enumerator {
-                    Some((child.const_value()?, child.name()?))
+                    Some((child.const_value(discr_unsigned)?, child.name()?))
                 } else {
                     None
                 }
